@@ -319,6 +319,13 @@ def run(p: Program, rep: Report, tier: str) -> None:
                 conn = p.cls(f"baize.{side}.requests:HTTPConnection")
                 reader = p.find_method(conn, "path_params")
                 rkeys = [n.value for n in ast.walk(reader.node) if isinstance(n, ast.Constant) and isinstance(n.value, str) and n.value.lower() == "path_params"]
+                rpaths, _rc, _ri = run_paths(p, reader, conn)
+                rvals = [pa_.value for pa_ in rpaths if pa_.exit == "return"]
+                unchanged = bool(rvals) and all(rv[0] == "call" and rv[1] == ("attr", ("param", "self"), "get") and rv[2][:1] == (("const", rkeys[0] if rkeys else None),) for rv in rvals) or \
+                    bool(rvals) and all(rv == ("sub", ("param", "self"), ("const", rkeys[0] if rkeys else None)) for rv in rvals)
+                if keys and rkeys and keys[0] == rkeys[0] and not unchanged:
+                    rep.violation("R8.4", construct(reader, text=f"path_params returns {show(rvals[0])[:70] if rvals else '?'}"), where(reader),
+                                  f"{side}: request.path_params does not return the mapping the router stored: the converted values are rewritten on the way to the endpoint (e.g. a str parameter percent-decoded a second time)")
                 if not keys or not rkeys or keys[0] != rkeys[0] or show(sv) not in show(stores[0].b):
                     rep.violation("R8.4", construct(call, text="path params hand-off"), where(call),
                                   f"{side}: path parameters are stored under {keys!r} but Request.path_params reads {rkeys!r} (or the stored value is not search()'s result)")
